@@ -204,7 +204,7 @@ func upperBounded(fn *ssa.Function, src ssa.Value, use ssa.Instruction) bool {
 				other = b.Succs[1]
 			}
 			r := NewReachFromBlock(other, nil, nil)
-			if !r.Reaches(use) {
+			if len(succ.Preds) == 1 || !r.Reaches(use) {
 				return true
 			}
 		}
